@@ -1,2 +1,4 @@
 -- Root of the `Verif` library: every property module.
+import Verif.Props.C01
 import Verif.Props.C07
+import Verif.Props.C14
